@@ -218,7 +218,9 @@ pub fn decodable_ext(em: &Emitted, fdts: &[FdtView], ov: &ObjView, delivered: &[
     let needle = format!("TOI=\"{}\"", ov.toi);
     let mut fdt_ok = false;
     for f in fdts {
-        let lists = f.xml.as_ref().map(|x| x.contains(&needle)).unwrap_or(true);
+        // an instance that could not be reassembled by the harness (Raptor-coded FDT) is assumed to list the object
+        // in full-FDT mode only; in ObjectsBeingTransferred mode it is not used (no demand rather than a wrong one)
+        let lists = f.xml.as_ref().map(|x| x.contains(&needle)).unwrap_or(em.spec.full_fdt);
         if !lists {
             continue;
         }
